@@ -8,7 +8,9 @@ pub mod alloc;
 pub mod choices;
 pub mod curves;
 pub mod drive;
+pub mod drive_ref;
 pub mod fixtures;
+pub mod kat;
 pub mod mirror;
 pub mod model;
 pub mod program;
@@ -36,7 +38,7 @@ fn main() {
         return;
     }
     if args.len() >= 2 && args[1] == "record-fixtures" {
-        fixtures::record_generators();
+        fixtures::record_all();
         println!("fixtures written to {}", fixtures::DIR);
         return;
     }
@@ -51,6 +53,10 @@ fn main() {
         .unwrap_or_else(|| "quick".into());
     if tier != "quick" && tier != "thorough" {
         eprintln!("unknown tier {}", tier);
+        std::process::exit(2);
+    }
+    if let Err(e) = kat::check() {
+        println!("MACHINERY-ERROR property={} instrumented merlin is not bit-compatible with the registry crate: {}", args[1], e);
         std::process::exit(2);
     }
     let code = props::run(&args[1], &tier, seed);
